@@ -146,3 +146,29 @@ func (d *RecDialer) NumDials() int {
 	defer d.mu.Unlock()
 	return len(d.Dials)
 }
+
+// GatedConn is a MemConn whose first Read blocks until Open is called: a client that has connected but
+// whose first bytes are still on their way.
+type GatedConn struct {
+	*MemConn
+	gate    chan struct{}
+	waiting chan struct{}
+	once    sync.Once
+	wonce   sync.Once
+}
+
+func NewGatedConn(script []byte, remote net.Addr) *GatedConn {
+	return &GatedConn{MemConn: NewMemConn(script, remote), gate: make(chan struct{}), waiting: make(chan struct{})}
+}
+
+func (g *GatedConn) Read(b []byte) (int, error) {
+	g.wonce.Do(func() { close(g.waiting) })
+	<-g.gate
+	return g.MemConn.Read(b)
+}
+
+// Waiting is closed once the code under test has started to read.
+func (g *GatedConn) Waiting() <-chan struct{} { return g.waiting }
+
+// Open lets the bytes through.
+func (g *GatedConn) Open() { g.once.Do(func() { close(g.gate) }) }
